@@ -28,7 +28,7 @@ RULE = (
 ASSUMPTIONS = ["filters are registered before start (the quantifier's 'sets of watched filters'); unwatch is outside the quantifier"]
 FLOORS = {"quick": {"scenarios": 8000, "rounds_checked": 15000, "find_entries_checked": 25000, "rounds_with_found_filters": 4000,
                     "sequences_ended_all_found": 500, "event_at_round_before": 1000, "event_at_round_after": 1000,
-                    "event_round_adjacent": 1500, "offers_expired_between_rounds": 800, "max_rounds_reached": 1000,
+                    "event_round_adjacent": 1500, "offers_expired_between_rounds": 800, "max_rounds_reached": 1000, "scenarios_with_a_second_listener_that_lets_go_of_the_filters": 2000,
                     "mesh_scenarios": 100, "mesh_find_entries_checked": 480, "mesh_finds_judged_against_listener_knowledge": 180}}
 # system-level shards: the mesh workload of pv/mesh.py under this property's boundary monitor (reports of other monitors are dropped)
 MESH = {"want": ("finds",), "claim": ("mesh:find-",),
@@ -190,9 +190,28 @@ def judge(ctx, sc, seed, replay):
     prot, tr = net.make_sd(h.loop, ("10.0.9.100", 30490), timings=tm)
     listener = S.ClientServiceListener()
 
+    # every other scenario a second part of the application watches the same filters for a while (a status display, say) and
+    # lets go of them one by one - at registration time, before the first round, between rounds; the first listener stays, so
+    # what is watched does not change
+    second = S.ClientServiceListener() if zlib.crc32(repr(sc["rounds"]).encode()) % 2 == 0 else None
+    made = []
+
     def setup():
         for fl in sc["filters"]:
-            prot.discovery.watch_service(net.client_filter(C, fl), listener)
+            f = net.client_filter(C, fl)
+            prot.discovery.watch_service(f, listener)
+            if second is not None:
+                prot.discovery.watch_service(f, second)
+                made.append(f)
+        if second is not None:
+            ctx.count("scenarios_with_a_second_listener_that_lets_go_of_the_filters")
+            t_set = h.loop.time()
+            for i, f in enumerate(made):
+                when = (None, (t_set + sc["rounds"][0]) / 2, sc["rounds"][0] + 2.0 ** -8, sc["rounds"][-1] - 2.0 ** -8)[i % 4]
+                if when is None or when <= t_set:
+                    prot.discovery.stop_watch_service(f, second)
+                else:
+                    h.at(when, prot.discovery.stop_watch_service, f, second)
         if late_cfg:
             # the application tunes the timings by assigning the fields after it has registered what it watches (create_endpoints
             # takes no timings, so assignment is the only way there): what is sent later uses the values in force then
